@@ -23,16 +23,17 @@ type IdxDesc struct {
 
 // Coll is one real collection plus what the harness needs to talk to it.
 type Coll struct {
-	W         *World
-	Name      string
-	C         *column.Collection
-	Cols      []ColDesc
-	Idx       []IdxDesc
-	Sorts     [][2]string // name, column
-	Trigs     [][2]string // name, column
-	Log       *RecLogger
-	Keys      []string // key alphabet probed by dumps
-	Restoring bool     // a Restore is running: insert markers of untracked rows are logged as runs
+	W          *World
+	Name       string
+	C          *column.Collection
+	Cols       []ColDesc
+	Idx        []IdxDesc
+	Sorts      [][2]string // name, column
+	Trigs      [][2]string // name, column
+	Log        *RecLogger
+	Keys       []string // key alphabet probed by dumps
+	Restoring  bool     // a Restore is running: insert markers of untracked rows are logged as runs
+	fillerKeys int      // keys handed to filler rows of a keyed collection
 
 	fmu      sync.Mutex
 	fired    map[string][]Ev // trigger calls since the last apply event
